@@ -108,6 +108,11 @@ func (fe functionExpr) CompletionAtPos(ctx context.Context, pos hcl.Pos) []lang.
 	case *hclsyntax.FunctionCallExpr:
 		if eType.NameRange.ContainsPos(pos) || eType.NameRange.End.Byte == pos.Byte {
 			prefixLen := pos.Byte - eType.NameRange.Start.Byte
+			if prefixLen > len(eType.Name) {
+				// The name range is longer than the name when a namespaced
+				// name is written with whitespace around "::"
+				return []lang.Candidate{}
+			}
 			prefix := eType.Name[0:prefixLen]
 			editRange := eType.Range()
 			return fe.matchingFunctions(prefix, editRange)
